@@ -5,6 +5,7 @@ import PyramidModel.Lemmas.HttpExcSpec
 /-! Driver for C19: one JSON case per line.
 in : {"cls": "HTTPNotFound" | {"code":n,"title":s,"explanation":s,"body":s,"html":s,"plain":s,"custom":b,"empty":b},
       "detail": null|s, "comment": null|s, "explanation": null|s, "body_template": null|s, "has_body": b, "status": null|s,
+      "detail_html"/"comment_html"/"explanation_html": null|s  (the value is a markup object; this is its __html__()),
       "headers": [[k,v],…], "environ": [[k,v],…], "q": {"text/html":n,"application/json":n,"text/plain":n}}
      (q in thousandths; 0/absent = not acceptable; strings are Python str without lone surrogates)
 out: {"r":"untouched"} | {"r":"err","err":"key","name":s} | {"r":"err","err":"invalid"} |
@@ -120,7 +121,10 @@ def runCase (j : Json) : Except String Json := do
     let e2 : Exc := match bt with
       | some t => { e1 with bodyTmpl := t, custom := true }
       | none => e1
-    let e : Exc := { e2 with status := st.getD e2.status }
+    let dh ← optText j "detail_html"
+    let ch ← optText j "comment_html"
+    let xh ← optText j "explanation_html"
+    let e : Exc := { e2 with status := st.getD e2.status, detailHtml := dh, commentHtml := ch, explanationHtml := xh }
     match prepare offeredForms e environ q with
     | .error err => return errJson err
     | .ok none => return Json.mkObj [("r", "untouched")]
